@@ -737,6 +737,7 @@ def oracle_c12(sc, steps):
         quotes = {q["key"]: q for q in pre["quotes"]}
         vals = {p["sym"]: p["value"] for p in pre["per_sym"]}
         want = {}
+        side_only = {}
         for sym, w in (op.get("weights_used") or res.get("weights_order") or op["weights"]):
             cur = F(vals[sym]) if vals.get(sym) is not None else 0.0
             gap = total * F(w) - cur
@@ -749,7 +750,8 @@ def oracle_c12(sc, steps):
                 nb, np_ = impact_total(st["costs"], abs(gap), F(q["bid"]), False)
             if not np_ > 0:
                 continue_ok = True
-                want[sym] = None      # non-positive net price: outside the statement
+                want[sym] = None      # non-positive net price: the sizing formula is outside the statement ...
+                side_only[sym] = "MarketBuy" if gap > 0 else "MarketSell"   # ... the direction and non-zero size are not
                 continue
             n = math.floor(nb / np_)
             if n >= 1:
@@ -766,6 +768,11 @@ def oracle_c12(sc, steps):
                 return dict(step=k, what="a sell follows a buy in the rebalancing orders")
         for sym in set(want) | set(got):
             if sym in want and want[sym] is None:
+                g = got.get(sym)
+                if g is not None and (g[0] != side_only[sym] or g[1] == 0.0):
+                    return dict(step=k, what="order for %s: the gap to the target calls for a %s (if anything), the broker "
+                                "produced %s — an order in the opposite direction or of size zero" % (sym, side_only[sym], g),
+                                weights=[(s, F(w)) for s, w in res["weights_order"]])
                 continue
             if want.get(sym) != got.get(sym):
                 return dict(step=k, what="order for %s: the property demands %s, the broker produced %s" % (
